@@ -1027,6 +1027,80 @@ func (c *TermCtx) Script(roots []*Term) (string, []*Term, func(*Term) string) {
 	return sb.String(), leaves, ref
 }
 
+// Emitter prints term definitions incrementally (one define-fun per node) for a
+// solver session that keeps them across queries.
+type Emitter struct {
+	defined  map[int]bool
+	declared map[string]bool
+	Leaves   []*Term
+}
+
+func NewEmitter() *Emitter {
+	return &Emitter{defined: map[int]bool{}, declared: map[string]bool{}}
+}
+
+func (e *Emitter) Ref(t *Term) string {
+	switch t.op {
+	case OpConst:
+		if t.w == 0 {
+			if t.c != 0 {
+				return "true"
+			}
+			return "false"
+		}
+		return bvLit(t.w, t.c)
+	case OpVar:
+		return t.name
+	}
+	return fmt.Sprintf("t%d", t.id)
+}
+
+// Emit writes the declarations/definitions t needs that were not emitted before.
+func (e *Emitter) Emit(sb *strings.Builder, t *Term) {
+	if e.defined[t.id] {
+		return
+	}
+	e.defined[t.id] = true
+	for i := 0; i < t.na; i++ {
+		e.Emit(sb, t.a[i])
+	}
+	switch t.op {
+	case OpConst:
+		return
+	case OpVar:
+		if !e.declared[t.name] {
+			e.declared[t.name] = true
+			fmt.Fprintf(sb, "(declare-const %s %s)\n", t.name, sortStr(t.w))
+			e.Leaves = append(e.Leaves, t)
+		}
+		return
+	case OpSelect:
+		if !e.declared[t.name] {
+			e.declared[t.name] = true
+			fmt.Fprintf(sb, "(declare-const %s (Array (_ BitVec 64) (_ BitVec %d)))\n", t.name, t.w)
+		}
+		e.Leaves = append(e.Leaves, t)
+		fmt.Fprintf(sb, "(define-fun t%d () %s (select %s %s))\n", t.id, sortStr(t.w), t.name, e.Ref(t.a[0]))
+		return
+	}
+	var body string
+	switch t.op {
+	case OpExtract:
+		body = fmt.Sprintf("((_ extract %d %d) %s)", t.hi, t.lo, e.Ref(t.a[0]))
+	case OpZext:
+		body = fmt.Sprintf("((_ zero_extend %d) %s)", t.w-t.a[0].w, e.Ref(t.a[0]))
+	case OpSext:
+		body = fmt.Sprintf("((_ sign_extend %d) %s)", t.w-t.a[0].w, e.Ref(t.a[0]))
+	default:
+		body = "(" + opNames[t.op]
+		for i := 0; i < t.na; i++ {
+			body += " " + e.Ref(t.a[i])
+		}
+		body += ")"
+	}
+	fmt.Fprintf(sb, "(define-fun t%d () %s %s)\n", t.id, sortStr(t.w), body)
+}
+
 // Str renders a term compactly for diagnostics (depth limited).
 func (c *TermCtx) Str(t *Term) string { return termStr(t, 6) }
 
